@@ -217,6 +217,31 @@ def prefixed_values(data: bytes) -> bool:
     return walk(node, {})
 
 
+ENV = "urn:vmc-envelope"
+
+
+def sub_element_documents(data: bytes) -> dict:
+    """The document as the first child of an envelope element: once verbatim, once with the namespace declarations of its root
+    moved to the envelope (so that names and prefixed values resolve through an ancestor outside the parsed element)."""
+    try:
+        text = data.decode("utf-8")
+    except UnicodeDecodeError:
+        return {}
+    if text.startswith("<?xml") or text.startswith("<!DOCTYPE") or text.startswith("\ufeff"):
+        return {}
+    out = {"lxml-subelement": f'<env:wrapper xmlns:env="{ENV}">{text}tail text<env:after>x</env:after></env:wrapper>'}
+    if not any(m in text for m in ("<!--", "<?", "<![CDATA[", "&#")):
+        try:
+            r = I.from_text(text)
+        except I.NotWellFormed:
+            return out
+        if "env" not in r.nsdecls and r.nsdecls:
+            decl = "".join(f' xmlns{":" + p if p else ""}="{I.esc_attr(u)}"' for p, u in r.nsdecls.items())
+            r.nsdecls = {}
+            out["lxml-subelement-hoisted"] = f'<env:wrapper xmlns:env="{ENV}"{decl}>{r.write()}tail text<env:after>x</env:after></env:wrapper>'
+    return out
+
+
 def parse_all_sources(data: bytes, make_parser, clazz, case):
     """native and lxml handlers over every source kind; returns (reference result, error-dict|None)."""
     results = {}
@@ -242,11 +267,19 @@ def parse_all_sources(data: bytes, make_parser, clazz, case):
         mk_lt = lambda: etree.fromstring(data, etree.XMLParser(remove_comments=False, resolve_entities=True)).getroottree()
         results["lxml/lxml-tree"] = call(lambda: make_parser(LxmlEventHandler).parse(mk_lt(), clazz))
         results["lxml/lxml-element"] = call(lambda: make_parser(LxmlEventHandler).parse(mk_lt().getroot(), clazz))
+        # an element taken out of a larger lxml document (an envelope): its in-scope namespaces partly come from ancestors,
+        # and it has a following sibling and tail text that are not part of it
+        for sname, wtext in sub_element_documents(data).items():
+            mk_sub = lambda wtext=wtext: etree.fromstring(wtext.encode("utf-8"), etree.XMLParser(remove_comments=False, resolve_entities=True))[0]
+            results[f"lxml/{sname}"] = call(lambda: make_parser(LxmlEventHandler).parse(mk_sub(), clazz))
         if not prefixed_values(data):
             # ElementTree discards prefix declarations: documents whose *values* use prefixes (QName content,
             # xsi:type) are not representable as an ElementTree source (stated in the native handler)
             results["native/et-tree"] = call(lambda: make_parser(XmlEventHandler).parse(ET.ElementTree(ET.fromstring(data)), clazz))
             results["native/et-element"] = call(lambda: make_parser(XmlEventHandler).parse(ET.fromstring(data), clazz))
+            sub = sub_element_documents(data).get("lxml-subelement")
+            if sub is not None:
+                results["native/et-subelement"] = call(lambda: make_parser(XmlEventHandler).parse(ET.fromstring(sub)[0], clazz))
     finally:
         os.unlink(tmp.name)
     return results
@@ -349,7 +382,8 @@ def run(tier: str, seed: int) -> int:
               "(comments / PIs between children and inside text, CDATA, character references, Latin-1 declaration, internal entity) x {native, lxml} x {bytes, str, path, file object, "
               "lxml tree/element, ElementTree tree/element}: parsed objects must be equal."),
         assumptions=["indentation compared after dropping whitespace-only text next to elements; mixed/generic content with indentation excluded (documented exception)",
-                     "ElementTree sources are given to the native handler only, lxml sources to the lxml handler only (as documented)"],
+                     "ElementTree sources are given to the native handler only, lxml sources to the lxml handler only (as documented)",
+                     "sub-element sources: the document as first child of an envelope element (followed by tail text and a sibling), verbatim and with its root's namespace declarations moved to the envelope"],
         bound={"models": len(vecs), "max_elements": max_elems, "label_deviations": bound},
         extra={"traces_validated_against_impl": stats.executions},
     )
